@@ -46,6 +46,8 @@ struct stack_policy
         u64 cap_at[MAXM];
         u32 live_at[MAXM];
         u32 shrunk_since[MAXM];
+        u32 nstale;
+        alignas(8) u8 stale[MAXM][sizeof(marker)]; // markers invalidated by an unwind below them (for C16)
     };
 
     static void init_extra(extra_t& x)
@@ -55,6 +57,43 @@ struct stack_policy
     static void construct(void* where)
     {
         ::new (where) object(PP.bs);
+    }
+    //=== deliberately invalid calls (C16): unwind to a marker that lies above the current top ===//
+    static int nbad()
+    {
+        return MAXM;
+    }
+    static std::string bad_kind(int)
+    {
+        return "unwind_above_top";
+    }
+    template <class W>
+    static bool bad_enabled(W& w, int s, int i)
+    {
+        if (!cfg_ptr || u32(i) >= w.x.nstale || w.x.owner != u32(s))
+            return false;
+        marker m   = *reinterpret_cast<marker*>(w.x.stale[i]);
+        marker now = S::obj(s).top();
+        // only markers that are really above the top are covered by the check
+        return m.index > now.index || (m.index == now.index && m.top > now.top);
+    }
+    template <class W>
+    static std::string bad_name(W& w, int s, int i)
+    {
+        marker m   = *reinterpret_cast<marker*>(w.x.stale[i]);
+        marker now = S::obj(s).top();
+        return fmt("unwind(stale marker in block %zu%s, current top in block %zu)", m.index, m.index == now.index ? " above the top" : "", now.index);
+    }
+    template <class W>
+    static void bad_call(W& w, int s, int i)
+    {
+        S::obj(s).unwind(*reinterpret_cast<marker*>(w.x.stale[i]));
+    }
+    template <class W>
+    static u64 digest(W&, int s)
+    {
+        auto& o = S::obj(s);
+        return u64(o.capacity_left()) ^ (u64(o.arena_.size()) << 40) ^ (u64(o.arena_.cache_size()) << 52);
     }
     static bool fills_new()
     {
@@ -285,6 +324,11 @@ struct stack_policy
                 w.h.sh.erase(k);
             else
                 ++k;
+        // remember the markers that became invalid
+        x.nstale = 0;
+        std::memset(x.stale, 0, sizeof x.stale);
+        for (u32 k = j + 1; k < x.nmark && x.nstale < MAXM; ++k)
+            std::memcpy(x.stale[x.nstale++], x.mk[k], sizeof(marker));
         x.nmark = j + 1;
         for (u32 k = x.nmark; k < MAXM; ++k)
         {
